@@ -5,7 +5,7 @@ id=$1; prop=${2:-${id%%-*}}; shift; shift
 S=$(mktemp -d /tmp/seedrun-XXXX)
 cp -r /repo/Cargo.toml /repo/Cargo.lock /repo/src $S/
 (cd $S && git init -q . && git apply /verif/seeded/$id/patch.diff) || { echo "apply failed"; exit 3; }
-VERIF_EVID_DIR=/tmp/seed-evid VERIF_REPO=$S VERIF_SCRATCH=${VERIF_SCRATCH:-/tmp/fg} /verif/vcheck $prop "$@" > /tmp/seedrun-$id-$prop.log 2>&1
+VERIF_EVID_DIR=/tmp/seed-evid VERIF_REPO=$S VERIF_SCRATCH=${VERIF_SCRATCH:-/tmp/fg} ${VCHECK:-/verif/vcheck} $prop "$@" > /tmp/seedrun-$id-$prop.log 2>&1
 rc=$?
 echo "$id $prop rc=$rc $(grep -c VIOLATION /tmp/seedrun-$id-$prop.log) violations; $(grep -E 'check=' /tmp/seedrun-$id-$prop.log | head -2 | cut -c1-200 | tr '\n' ' ')"
 rm -rf $S
